@@ -404,4 +404,58 @@ theorem C01_mtrix_from_their_records (o : ReadOpts) (ho : o.onlyFirstModel = fal
   rw [hf, k]
   exact (acc _ _).trans (by simp)
 
+/-! ### MODRES → the modification list handed to `add_modifications` -/
+
+def modresOf (o : ReadOpts) (il : Nat × List Char) : Option ((Nat × List Char) × LexItem) :=
+  match lexLine il.2 (il.1 + 1) o.level o.onlyAtomicCoords with
+  | .ok (.modres a b c d e f, _) => some ((il.1 + 1, il.2), .modres a b c d e f)
+  | _ => none
+
+theorem flushModel_modifications (s : PState) : (flushModel s).modifications = s.modifications := by
+  unfold flushModel; split <;> (try split) <;> rfl
+
+theorem stepItem_modifications (o : ReadOpts) (s : PState) (ctx : Nat × List Char) (item : LexItem) :
+    (stepItem o s ctx item).1.modifications =
+      (match item with | .modres .. => s.modifications ++ [(ctx, item)] | _ => s.modifications) := by
+  have hf := flushModel_modifications s
+  cases item
+  case atom => simp only [stepItem]; (repeat' split) <;> rfl
+  all_goals first
+    | (simp only [stepItem]; done)
+    | (simp only [stepItem]; (repeat' split) <;> first | rfl | exact hf | (simp [hf]; done))
+
+theorem stepLine_modifications (o : ReadOpts) (s : PState) (il : Nat × List Char) (hs : s.stopped = false) :
+    (stepLine o s (il.1 + 1) il.2).modifications = s.modifications ++ (modresOf o il).toList := by
+  unfold stepLine modresOf
+  rw [if_neg (by simp [hs])]
+  cases hl : lexLine il.2 (il.1 + 1) o.level o.onlyAtomicCoords with
+  | error e => simp
+  | ok p =>
+    obtain ⟨item, errs⟩ := p
+    have h3 := stepItem_modifications o { s with errors := [] } (il.1 + 1, il.2) item
+    show (stepItem o { s with errors := [] } (il.1 + 1, il.2) item).1.modifications = _
+    rw [h3]
+    cases item <;> simp
+
+/-- **the residue modifications applied after reading are exactly the MODRES records, each with the line it stands
+on, in file order** (reading without only-first-model): what the fold hands to `addModifications` -/
+theorem fold_modifications_are_the_modres_records (o : ReadOpts) (ho : o.onlyFirstModel = false) (lines : List (List Char)) :
+    (flushModel (((List.range lines.length).zip lines).foldl
+      (fun s (il : Nat × List Char) => stepLine o s (il.1 + 1) il.2) ({} : PState))).modifications =
+      ((List.range lines.length).zip lines).filterMap (modresOf o) := by
+  have key : ∀ (zl : List (Nat × List Char)) (s : PState), s.stopped = false →
+      (zl.foldl (fun s (il : Nat × List Char) => stepLine o s (il.1 + 1) il.2) s).modifications =
+        s.modifications ++ zl.filterMap (modresOf o) := by
+    intro zl
+    induction zl with
+    | nil => intro s _; simp
+    | cons x xs ih =>
+      intro s hs
+      have h1 := (stepLine_meta o ho s x hs).1
+      simp only [List.foldl_cons]
+      rw [ih _ h1, stepLine_modifications o s x hs]
+      cases hh : modresOf o x <;> simp [hh]
+  rw [flushModel_modifications, key _ _ rfl]
+  simp
+
 end PdbModel
